@@ -86,10 +86,12 @@ TABLES = {
     "T4": [["a", "int", [0, 2, 3]], ["b", "str", ["x", None, "z"]], ["d", "str", ["7", "8", "9"]], ["e", "bool", [True, False, True]]],
     # JSON only: values that are objects / lists of objects whose own members are named like top-level keys
     "T6": [["id", "int", [7, 8]], ["host", "obj", [{"id": 1, "name": "h"}, {"name": "g", "tags": [{"id": 3, "x": 1}]}]], ["name", "str", ["p", "q"]]],
+    # key names holding shell-pattern characters, next to names those patterns would match
+    "T9": [["id", "int", [1, 2]], ["area[m2]", "float", [1.5, 2.5]], ["aream", "str", ["x", "y"]], ["ok?", "bool", [True, False]], ["oka", "int", [7, 8]]],
     "T5": [["a", "int", [1, 2]], ["b", "str", ["x", "y"]], ["c", "float", [1.5, None]],
            ["t", "date", ["2020-02-29", "1970-01-01"]], ["e", "bool", [True, None]]],
 }
-TABLE_ORDER = {"quick": ["T1", "T2", "T0", "T3", "T3f", "T3r", "T7", "T4"], "thorough": ["T1", "T2", "T0", "T3", "T3f", "T3r", "T7", "T4", "T5"]}
+TABLE_ORDER = {"quick": ["T1", "T2", "T0", "T3", "T3f", "T3r", "T7", "T4", "T9"], "thorough": ["T1", "T2", "T0", "T3", "T3f", "T3r", "T7", "T4", "T9", "T5"]}
 
 
 # files for the ListOfDicts readers only (a list of dicts holds whatever the file holds, key by key):
